@@ -1,7 +1,7 @@
 (* Properties.v — the property theorems, and nothing else.  Each is closed by [exact] of a lemma
    proved in the Proofs* files and followed by Print Assumptions. *)
 From Coq Require Import Permutation.
-From Godi Require Import Base GDfs GKahn GKahnComplete GraphSpec Conc Web Model Check ProofsGraph ProofsConc ProofsWeb ProofsRegistry ProofsRuntime ProofsClosed ProofsTerm.
+From Godi Require Import Base GDfs GKahn GKahnComplete GraphSpec Conc Web Model Check ProofsGraph ProofsConc ProofsWeb ProofsRegistry ProofsRuntime ProofsClosed ProofsTerm ProofsWf.
 
 (* ---------------------------------------------------------------- C01 *)
 Theorem C01_resolving_a_singleton_is_a_table_read : forall fuel rs h d,
@@ -79,6 +79,20 @@ Theorem C05_a_decreasing_rank_bounds_the_recursion : forall c (rank : desc -> na
   forall fuel rs h d, p_descs (rs_p rs) = c -> In d c -> rank d < fuel -> snd (resolve_d fuel rs h d) <> RFuel.
 Proof. exact resolve_never_out_of_fuel. Qed.
 Print Assumptions C05_a_decreasing_rank_bounds_the_recursion.
+
+(* the well-formedness premise above is an invariant of the registry: it holds after every history of calls
+   in which no dependency and no result-object field carries both a name and a group *)
+Theorem C05_registry_well_formed_after_every_history : forall ops,
+  forallb op_ok ops = true -> wf_coll (w_coll (fst (run_from init_world ops))).
+Proof. exact wf_after_every_history. Qed.
+Print Assumptions C05_registry_well_formed_after_every_history.
+
+Theorem C05_accepted_histories_resolve_in_bounded_depth : forall ops, forallb op_ok ops = true ->
+  let c := w_coll (fst (run_from init_world ops)) in
+  has_cycle c = false ->
+  exists N, forall fuel rs h d, N <= fuel -> p_descs (rs_p rs) = c -> In d c -> snd (resolve_d fuel rs h d) <> RFuel.
+Proof. exact accepted_histories_resolve_in_bounded_depth. Qed.
+Print Assumptions C05_accepted_histories_resolve_in_bounded_depth.
 
 Theorem C05_reference_verdict_exact_on_every_history : forall ops,
   acyclic (grun ops) = true <-> forall u, In u (dg_nodes (grun ops)) -> ~ on_cycle (GraphSpec.succ (grun ops)) u.
@@ -316,6 +330,20 @@ Theorem C17_one_registration_per_identity : forall ops w,
   coll_inv (w_coll w) -> coll_inv (w_coll (fst (run_from w ops))).
 Proof. exact registry_invariant. Qed.
 Print Assumptions C17_one_registration_per_identity.
+
+(* "a group accumulates members in call order": after every history the members of every group carry the
+   numbers 1..n in registration order, and a registration into a group appends exactly one member *)
+Theorem C17_groups_numbered_in_call_order : forall ops w,
+  numbered (w_coll w) -> numbered (w_coll (fst (run_from w ops))).
+Proof. exact groups_numbered_in_call_order. Qed.
+Print Assumptions C17_groups_numbered_in_call_order.
+
+Theorem C17_group_registration_appends : forall c d c', ds_key d = KNone -> ds_grp d <> 0 -> register c d = inl c' ->
+  exists m, c' = c ++ [m] /\ ds_reg m = ds_reg d /\
+            group_members c' (ds_ty d) (ds_grp d) = group_members c (ds_ty d) (ds_grp d) ++ [m] /\
+            forall t g, (t, g) <> (ds_ty d, ds_grp d) -> group_members c' t g = group_members c t g.
+Proof. exact group_registration_appends. Qed.
+Print Assumptions C17_group_registration_appends.
 
 Theorem C17_removed_identity_is_gone : forall c t k,
   uniq c -> find_service (remove_service c t k) t k = None.
